@@ -175,12 +175,12 @@ TemplateText(exec, seq) ==
 (* ------------------------- caller-supplied values ---------------------- *)
 (* set = TRUE: the caller supplies everything that can be supplied;        *)
 (* set = FALSE: only what is mandatory.                                    *)
-Supplied(e, set) ==
+Supplied(e, name, set) ==
   LET t == EffType(e) IN
   CASE e.kind = "flag" -> IF set THEN BoolV(DefaultOf(e) # BoolV(TRUE)) ELSE Unset
     [] e.kind = "out"  -> IF ~set THEN Unset
                           ELSE IF e.suf = "?" THEN UseTemplate
-                          ELSE Atom("path", "!given" \o t.ext)     \* "can always be overridden when the task is initialised"
+                          ELSE Atom("path", "!given_" \o name \o t.ext)     \* "can always be overridden when the task is initialised"
     [] e.suf = "?" -> IF set THEN Sample(t, 1) ELSE Unset
     [] e.suf = "+" -> IF set THEN ListV(<<Sample(t, 1), Sample(t, 2)>>) ELSE ListV(<<Sample(t, 1)>>)
     [] e.suf = "*" -> IF set THEN ListV(<<Sample(t, 1), Sample(t, 2)>>) ELSE Unset
